@@ -966,3 +966,15 @@ B('OH-level-add-or', ['C08', 'C19'], 'frame.py', 'Frame.relabel_level_add',
   'I.optional-hashable-identity-test', 'relabel_level_add')
 N('OH-level-add-is-none-flipped', ['C08', 'C19'], 'frame.py', 'Frame.relabel_level_add',
   'index = self._index.level_add(index) if index is not None else self._index', 'index = self._index if index is None else self._index.level_add(index)')
+
+# ---------------------------------------------------------------------------------- index rebuilds carry the name (C08)
+B('NM-ih-astype-name-dropped', ['C08'], 'index_hierarchy.py', 'IndexHierarchyAsType.__call__',
+  '                name=container._name,\n', '', 'G.index-rebuild-carries-name', '__call__')
+B('NM-frame-insert-name-dropped', ['C08'], 'frame.py', 'Frame._insert',
+  '                ),\n                name=self._columns._name,\n                )\n', '                ))\n', 'G.index-rebuild-carries-name', '_insert')
+B('NM-series-insert-other-name', ['C08'], 'series.py', 'Series._insert',
+  '                name=self._index._name,\n', '                name=container._index._name,\n', 'G.index-rebuild-carries-name', '_insert')
+B('NM-ih-roll-name-dropped', ['C08'], 'index_hierarchy.py', 'IndexHierarchy.roll',
+  '                name=self._name,\n', '', 'G.index-rebuild-carries-name', 'roll')
+N('NM-series-insert-name-property', ['C08'], 'series.py', 'Series._insert',
+  '                name=self._index._name,\n', '                name=self._index.name,\n')
